@@ -52,7 +52,10 @@ ASSUMPTIONS = [
     "accuracy bound: |idx - true| <= phi x (number of approach samples) with phi = %r, calibrated as ~1.5-2x the "
     "largest error over >= 20000 clean curves (noise in {0, 1e-4, 1e-3} of the force range, no tilt) on the repaired "
     "tree (tools/calibrate_c08.py); the measured maxima of a run are reported as max_err_<estimator>" % (PHI,),
-    "shifts are bounded by 10x the force range (beyond that float64 cancellation, not the estimator, moves the index); "
+    "shifts are bounded by 10x the force range (beyond that float64 cancellation, not the estimator, moves the index) and "
+    "generated noise / tilt amplitudes are exactly 0 or >= 1e-5 / 1e-3 of the force range (a baseline scatter of 1e-90 "
+    "force ranges is representable around 0 but is erased by any shift, which legitimately changes a threshold that "
+    "is relative to the baseline scatter); "
     "power-of-two factors 2^-20..2^20 keep nN-scale forces far from under/overflow, so every intermediate result scales "
     "exactly and the index must be identical",
     "Nelder-Mead (lmfit/scipy) is deterministic for identical input: the Indentation method and ret_details=True must "
@@ -82,9 +85,12 @@ def st_curve(draw, clean=False, n_len=None):
     if clean:
         noise = st.sampled_from([0.0, 0.0, 1e-4, 1e-3])
     else:
-        noise = st.one_of(st.sampled_from([0.0, 1e-4, 1e-3, 1e-2, 3e-2]), st.floats(0.0, 3e-2))
-    curve = draw(synth.st_curve(st, noise=noise, n_range=(60, 60), with_tip=False, tilt=not clean,
+        # noise and tilt are exactly 0 or large enough to survive a shift by 10 force ranges in float64
+        noise = st.one_of(st.sampled_from([0.0, 1e-4, 1e-3, 1e-2, 3e-2]), st.floats(1e-5, 3e-2))
+    curve = draw(synth.st_curve(st, noise=noise, n_range=(60, 60), with_tip=False, tilt=False,
                                 min_baseline_frac=0.2))
+    if not clean:
+        curve["tilt"] = draw(st.sampled_from([0.0, 1.0, -1.0])) * draw(st.floats(1e-3, 0.3))
     n_len = n_len or _st_len()
     curve["n_app"] = draw(n_len)
     curve["n_ret"] = draw(n_len)
